@@ -192,6 +192,43 @@ def validX [DecidableEq F] (nodata : Option (X F)) : X F → Bool
   | .fin q => !(decide (nodata = some (.fin q)))
   | _ => false
 
+/-! ### the validity filter as it is written in the source
+
+  `_calc_stats`, `_find_cats`, `_single_zone_crosstab_2d/_3d` select `A[mask]` with a NumPy boolean mask built
+  from `np.isfinite` / `np.isnan` / `np.isinf`, elementwise comparisons with the scalar `nodata_values` and
+  `& | ~`.  harness/facts_zonal.py translates each mask into an `MExpr`; `MExpr.eval` is NumPy's meaning of it
+  on one element (IEEE comparisons: NaN and `None` are equal to nothing). -/
+
+inductive MExpr where
+  | isfinite | isnan | isinf
+  | neNodata | eqNodata          -- `v != nodata_values`, `v == nodata_values`
+  | nodataNone                   -- `nodata_values is None`
+  | tt
+  | and (a b : MExpr) | or (a b : MExpr) | not (a : MExpr)
+  | unknown                      -- a mask the translator does not understand
+  deriving Repr, DecidableEq
+
+/-- IEEE `==` of an array element with the scalar `nodata_values` -/
+def ieeeEq [DecidableEq F] (nodata : Option (X F)) (v : X F) : Bool :=
+  match nodata, v with
+  | none, _ => false
+  | some .nan, _ => false
+  | _, .nan => false
+  | some n, v => decide (n = v)
+
+def MExpr.eval [DecidableEq F] (nodata : Option (X F)) : MExpr → X F → Bool
+  | .isfinite, v => v.isFin
+  | .isnan, v => decide (v = .nan)
+  | .isinf, v => decide (v = .pinf) || decide (v = .ninf)
+  | .neNodata, v => !ieeeEq nodata v
+  | .eqNodata, v => ieeeEq nodata v
+  | .nodataNone, _ => nodata.isNone
+  | .tt, _ => true
+  | .and a b, v => a.eval nodata v && b.eval nodata v
+  | .or a b, v => a.eval nodata v || b.eval nodata v
+  | .not a, v => !a.eval nodata v
+  | .unknown, _ => false
+
 /-- a built-in reducer as it is applied to the filtered zone values; result `none` = NaN -/
 def Stat.func (sqrt : F → F) (s : Stat) : List (X F) → Option F :=
   fun l => some (s.eval sqrt (l.filterMap X.toFin?))
